@@ -106,6 +106,7 @@ struct World
   std::vector<val::Scratch::Block> retained;
   nostd::shared_ptr<logs_api::Logger> logger, dlogger, logger2;
   sdklogs::LoggerProvider *prov = nullptr;
+  int nproc = 0, late = 0;  // late: processors added between CreateLogRecord and Emit (<= 2)
   const void *resource = nullptr, *scope = nullptr, *scope2 = nullptr;
 };
 World *W = nullptr;
@@ -125,6 +126,8 @@ public:
     hz::HarnessCode hc_;
     for (auto &r : records)
     {
+      if (!r)
+        continue;
       auto *lr = static_cast<sdklogs::ReadWriteLogRecord *>(r.get());
       Snap s;
       s.severity = (int)lr->GetSeverity();
@@ -459,6 +462,16 @@ void do_emit(TaskState &ts, const Op &op, int64_t tag)
         // record created under the current active span, emitted under another one
         auto rec = L.CreateLogRecord();
         auto p   = pairs(false);
+        // a record held across LoggerProvider::AddProcessor (single-task programs only: the call
+        // is not meant to race emitters). Nothing is demanded of the late processor's exporter;
+        // the processors configured from the start still get the record exactly once.
+        if (w.c->tasks.size() == 1 && ((seed >> 9) & 3) == 0 && w.late < 2 && w.prov)
+        {
+          std::unique_ptr<sdklogs::LogRecordExporter> e(new CaptureExporter(w.nproc + w.late++));
+          w.prov->AddProcessor(std::unique_ptr<sdklogs::LogRecordProcessor>(
+              new sdklogs::SimpleLogRecordProcessor(std::move(e))));
+          vsim::probe("logs.processor_added_while_record_in_flight");
+        }
         {
           trace_api::Scope other(w.spans[(seed >> 4) % kSpans]);
           m.severity = (int)sev;
@@ -650,7 +663,8 @@ void body(const Case &c)
   W   = &w;
   w.c = &c;
   int nproc = (int)c.knob("nproc", 1), layout = (int)c.knob("layout", 0);
-  w.got.resize(nproc);
+  w.got.resize(nproc + 2);
+  w.nproc = nproc;
   for (int i = 0; i < kSpans; ++i)
   {
     uint8_t t[16] = {0xa0, (uint8_t)i, 3, 4, 5, 6, 7, 8, 9, 10, 11, 12, 13, 14, 15, 16};
